@@ -303,7 +303,10 @@ def check_property(pid, tier="quick", seed=0, verbose=True):
     # (safety / call-site obligations are named by line and may legitimately disappear; the
     #  obligations that carry the property -- postconditions, invariants, lemmas -- may not)
     missing = [n for n in baseline if n not in names_now and not n.endswith("#unrestricted") and ("/post." in n or ".inv." in n or n.startswith("lemma/") or "/raises." in n or "/frame." in n)]
-    if missing and not os.environ.get("VF_UPDATE_BASELINE"):
+    refuted_now = [v for v, why in failed if why == "refuted"]
+    if missing and refuted_now:
+        log(f"note: obligations of the baseline were not generated (structure changed): {missing[:4]}; a refuted obligation is reported regardless")
+    if missing and not refuted_now and not os.environ.get("VF_UPDATE_BASELINE"):
         log(f"UNDECIDED property={pid}: obligations of the baseline were not generated (structure changed): {missing[:5]}")
         code = undecided_fallback(pid, tier, seed, known, log)
         write_evidence(pid, tier, seed, prop, vcs, info, time.time() - t_start, undecided="missing obligations: " + ", ".join(missing[:8]), solver_time=solver_time, violations=int(code == 1), extra={"crosscheck": dict(LAST_FALLBACK)})
